@@ -19,6 +19,16 @@ def umul (m : Mode) (a b : Nat) : Option Nat :=
 /-- `usize::checked_mul` -/
 def checkedMul (a b : Nat) : Option Nat := if a * b < USIZE then some (a * b) else none
 
+/-- `f64` by bit pattern; `==` is IEEE (NaN ≠ NaN, +0 = −0) -/
+structure F64 where
+  bits : Nat
+deriving DecidableEq, Repr, Inhabited
+
+def F64.isNaN (x : F64) : Bool := (x.bits / 2 ^ 52) % 2 ^ 11 == 2 ^ 11 - 1 && x.bits % 2 ^ 52 != 0
+def F64.isZero (x : F64) : Bool := x.bits % 2 ^ 63 == 0
+/-- Rust `==` on `f64` -/
+def F64.eq (a b : F64) : Bool := !a.isNaN && !b.isNaN && (a.bits == b.bits || (a.isZero && b.isZero))
+
 /-- Growth policy of `Vec` (amortised doubling). Proofs use only `grow_ge_need`, `grow_ge_cap`,
 `grow_ge_double`, so they hold for any policy with these three properties. -/
 def grow (cap need : Nat) : Nat := max (2 * cap) need
